@@ -18,6 +18,7 @@ import (
 	"context"
 	"encoding/hex"
 	"fmt"
+	"net"
 	"os"
 	"runtime"
 	"runtime/debug"
@@ -58,7 +59,8 @@ type question struct {
 //
 // Identity (what the property quantifies over): Name (wire bytes), Type, Class,
 // AD, CD and QDO — the DO bit of the OPT record of qCtx.Q() itself.
-// Noise (must not matter, sharing allowed): ID, RD, ClientOPT (the client's OPT
+// Noise (must not matter, sharing allowed): Shape (other records placed around
+// the OPT in Q()'s additional section), ID, RD, ClientOPT (the client's OPT
 // record, which query_context replaces and does not forward).
 // Bypass kinds: "qr" (QR=1), "opcode" (Opcode != 0), "qd0", "qd2", "qd3".
 type qspec struct {
@@ -70,6 +72,7 @@ type qspec struct {
 	RD        bool
 	ID        uint16
 	ClientOPT uint8 // 0 none, 1 OPT, 2 OPT with DO
+	Shape     uint8 // layout of Q()'s additional section, see extraShapes
 	Kind      string
 	Opcode    uint8
 	Extra     []question
@@ -93,6 +96,8 @@ type specJSON struct {
 	RD        bool           `json:"rd"`
 	ID        uint16         `json:"id"`
 	ClientOPT uint8          `json:"client_opt"`
+	Shape     uint8          `json:"q_extra_shape"`
+	ShapeText string         `json:"q_extra_layout"`
 	Kind      string         `json:"bypass_kind,omitempty"`
 	Opcode    uint8          `json:"opcode,omitempty"`
 	Extra     []questionJSON `json:"extra_questions,omitempty"`
@@ -105,6 +110,7 @@ func (s *qspec) toJSON() specJSON {
 		Name: wire.NameString(s.Name), NameHex: hex.EncodeToString(s.Name),
 		Type: s.Type, Class: s.Class, AD: s.AD, CD: s.CD, QDO: s.QDO,
 		RD: s.RD, ID: s.ID, ClientOPT: s.ClientOPT, Kind: s.Kind, Opcode: s.Opcode,
+		Shape: s.Shape, ShapeText: extraShapes[int(s.Shape)%len(extraShapes)].text,
 		WireHex: hex.EncodeToString(s.wire()),
 	}
 	for _, e := range s.Extra {
@@ -123,7 +129,7 @@ func (j *specJSON) toSpec() (qspec, error) {
 		return qspec{}, err
 	}
 	s := qspec{Name: n, Type: j.Type, Class: j.Class, AD: j.AD, CD: j.CD, QDO: j.QDO, RD: j.RD, ID: j.ID,
-		ClientOPT: j.ClientOPT, Kind: j.Kind, Opcode: j.Opcode}
+		ClientOPT: j.ClientOPT, Kind: j.Kind, Opcode: j.Opcode, Shape: j.Shape}
 	for _, e := range j.Extra {
 		en, err := hex.DecodeString(e.NameHex)
 		if err != nil {
@@ -327,7 +333,58 @@ func build(s *qspec) (*query_context.Context, error) {
 	if s.QDO {
 		qCtx.QOpt().SetDo()
 	}
+	if sh := extraShapes[int(s.Shape)%len(extraShapes)]; len(sh.before)+len(sh.after) > 0 {
+		// other additional records around the OPT, put there the way a plugin in
+		// front of the cache could (the server admits at most one from clients)
+		q := qCtx.Q()
+		oi := -1
+		for i, rr := range q.Extra {
+			if _, ok := rr.(*dns.OPT); ok {
+				oi = i
+			}
+		}
+		if oi < 0 {
+			return nil, fmt.Errorf("Q() has no OPT")
+		}
+		ex := make([]dns.RR, 0, len(q.Extra)+len(sh.before)+len(sh.after))
+		ex = append(ex, q.Extra[:oi]...)
+		for _, k := range sh.before {
+			ex = append(ex, extraRR(k))
+		}
+		ex = append(ex, q.Extra[oi])
+		for _, k := range sh.after {
+			ex = append(ex, extraRR(k))
+		}
+		ex = append(ex, q.Extra[oi+1:]...)
+		q.Extra = ex
+	}
 	return qCtx, nil
+}
+
+// extraShapes are the layouts of Q()'s additional section: which records
+// stand before and after the OPT (a = A, t = TXT, s = TSIG).
+var extraShapes = []struct {
+	text          string
+	before, after string
+}{
+	{"[OPT]", "", ""},
+	{"[OPT A]", "", "a"},
+	{"[OPT TSIG]", "", "s"},
+	{"[TXT OPT]", "t", ""},
+	{"[A OPT TXT]", "a", "t"},
+	{"[A TXT OPT A TSIG]", "at", "as"},
+}
+
+func extraRR(kind rune) dns.RR {
+	switch kind {
+	case 'a':
+		return &dns.A{Hdr: dns.RR_Header{Name: "extra.c04.", Rrtype: dns.TypeA, Class: dns.ClassINET, Ttl: 60}, A: net.IPv4(192, 0, 2, 53)}
+	case 't':
+		return &dns.TXT{Hdr: dns.RR_Header{Name: "extra.c04.", Rrtype: dns.TypeTXT, Class: dns.ClassINET, Ttl: 60}, Txt: []string{"appended by a plugin"}}
+	default:
+		return &dns.TSIG{Hdr: dns.RR_Header{Name: "key.c04.", Rrtype: dns.TypeTSIG, Class: dns.ClassANY, Ttl: 0},
+			Algorithm: dns.HmacSHA256, TimeSigned: 1700000000, Fudge: 300, MACSize: 4, MAC: "deadbeef", OrigId: 1}
+	}
 }
 
 func (r *runner) one(ctx context.Context, qCtx *query_context.Context, i, pass int) (o obs) {
@@ -376,6 +433,15 @@ func checkRoundTrip(s *qspec, qCtx *query_context.Context) string {
 	opts := m.OPTs()
 	if len(opts) != 1 || opts[0].DO != s.QDO {
 		return fmt.Sprintf("opt records %d / DO mismatch", len(opts))
+	}
+	sh := extraShapes[int(s.Shape)%len(extraShapes)]
+	if m.CountNonOPT() != len(sh.before)+len(sh.after) {
+		return fmt.Sprintf("%d non-OPT additional records, want layout %s", m.CountNonOPT(), sh.text)
+	}
+	for i, rr := range m.Extra { // the OPT stands where the layout says
+		if rr.Type == 41 && i != len(sh.before) {
+			return fmt.Sprintf("OPT at additional index %d, want layout %s", i, sh.text)
+		}
 	}
 	return ""
 }
@@ -553,8 +619,8 @@ func main() {
 			defer pprof.StopCPUProfile()
 		}
 	}
-	rep.SetRule("families of queries (all 65536 types; all 65536 classes; type x class x AD/CD/DO grids; single- and double-bit neighbours of random (type,class,flags) triples; random triples; names: every wire length 1..255, every single-byte and two-byte label, one-byte substitutions, case variants, label-boundary / escaped-dot variants, escape-alphabet enumeration, extra leading/trailing labels, name x type x class grids; bypass messages) are run through the real cache plugin on fresh caches sized 4x the family, once in insertion order and once in reverse: pass 1 stores a unique marker per query, pass 2 replays all queries. One case = (question, order); non-trivial = the query was answered from the cache in pass 2 and the marker it carried was compared with its own (bypass cases: the message reached the terminal with no response set); distinct = distinct (name, type, class, AD, CD, DO, order)")
-	rep.Assume("'query' = the message the cache plugin is given, qCtx.Q(): query_context does not forward the client's OPT/DO, so DO is varied on Q()'s own OPT; queries differing only in ID, RD or the client's OPT may share an entry")
+	rep.SetRule("families of queries (all 65536 types; all 65536 classes; type x class x AD/CD/DO grids; single- and double-bit neighbours of random (type,class,flags) triples; random triples; names: every wire length 1..255, every single-byte and two-byte label, one-byte substitutions, case variants, label-boundary / escaped-dot variants, escape-alphabet enumeration, extra leading/trailing labels, name x type x class grids; AD/CD/DO x layouts of Q()'s additional section (other records before/after the OPT); bypass messages; every query of every family also gets a random such layout) are run through the real cache plugin on fresh caches sized 4x the family, once in insertion order and once in reverse: pass 1 stores a unique marker per query, pass 2 replays all queries. One case = (question, order); non-trivial = the query was answered from the cache in pass 2 and the marker it carried was compared with its own (bypass cases: the message reached the terminal with no response set); distinct = distinct (name, type, class, AD, CD, DO, order)")
+	rep.Assume("'query' = the message the cache plugin is given, qCtx.Q(): query_context does not forward the client's OPT/DO, so DO is varied on Q()'s own OPT; queries differing only in ID, RD, the client's OPT or the other records a plugin placed around Q()'s OPT may share an entry")
 	rep.Assume("names are compared byte-exactly on the wire (case variants and escaped-dot variants are different questions: the cached response carries the stored question section)")
 	rep.Assume("client queries are built with the independent wire builder, unpacked by miekg/dns as the server does, and Q() is packed again and compared with the intended question by the independent parser before use")
 
